@@ -201,6 +201,17 @@ func replayObligation(ctx *Context, r *OblResult, outDir string) (bool, string) 
 	drv := filepath.Join(verifDir, "replay", "drivers", safeName(r.ob.Name)+".go.txt")
 	src, err := os.ReadFile(drv)
 	if err != nil {
+		// a driver may serve every obligation of one contract label (method-set templates): label_<label>.go.txt
+		label := r.ob.Label
+		if r.ob.Kind == "effect" {
+			if i := strings.LastIndex(label, ":"); i > 0 && strings.Count(label, ":") >= 2 {
+				label = label[:i]
+			}
+		}
+		drv = filepath.Join(verifDir, "replay", "drivers", "label_"+safeName(label)+".go.txt")
+		src, err = os.ReadFile(drv)
+	}
+	if err != nil {
 		return false, log
 	}
 	c2, log2 := runReplayTest(ctx, r.fr.fc.PkgPath, string(src), filepath.Join(outDir, "driver"))
